@@ -539,8 +539,9 @@ func genEntry(r *vh.RNG, B int, now time.Time, wild bool) entry {
 			pool := []string{`{`, `{"a":}`, `abc`, `{"a":1}}`, `{"a":"b" "c":1}`, `{"a":1,}`, `[1,`, `[1, 2`, `["a"] trail`, `"abc`, `tru`, `nul`, `falsey`,
 				`12x`, `-x`, `[]]`, `"a" "b"`, `[1,]`, `{"a":tru}`}
 			e.doc = pool[r.Intn(len(pool))]
-			// the verdict on a malformed line is the decoder's verdict on the whole line
-			e.kind, e.tcat = []docKind{dObject, dNonObject, dInvalid}[bulk.VerifJSONKind([]byte(e.doc))], tUnknown
+			// the property's verdict on a malformed line: RFC 8259 validity of the whole line (all lines of this pool are
+			// invalid; lines on which the code's decoder is known to be more lenient live in the bulk.lines oracle)
+			e.kind, e.tcat = []docKind{dObject, dNonObject, dInvalid}[rfcKind([]byte(e.doc))], tUnknown
 		} else {
 			e.doc, e.tcat = `{"k":"v"}`, tNone
 		}
@@ -1098,6 +1099,12 @@ func runTimeCase(c timeCase, chMid *vh.Channel, orc *vh.Oracle, rep *vh.Report) 
 
 const tUnknown timeCat = -1
 
+// lines met by expectFromBody that are not valid JSON but accepted by the code's decoder
+var (
+	lenientLines    [][]byte
+	lenientVerdicts []int
+)
+
 // expectFromBody computes the expectation for any body whose lines are all terminated, from the bytes alone
 // (line-level walk written independently of the Lean model; insane-json's verdict as oracle).  Used for mutated
 // bodies and for replays, where the generator's knowledge is not available.
@@ -1139,7 +1146,15 @@ func expectFromBody(body []byte, B int) (known, accepted bool, stored []entry, i
 		if len(sd) == 0 {
 			return true, false, nil, false, false
 		}
-		switch bulk.VerifJSONKind(sd) {
+		verdict := rfcKind(sd)
+		if dec := bulk.VerifJSONKind(sd); dec != verdict && verdict == 2 {
+			// a line that is not valid JSON but that the code's decoder accepts: reported under its own narrow
+			// signature by checkProperty, the rest of the body is held to the decoder's verdict
+			lenientLines = append(lenientLines, append([]byte(nil), sd...))
+			lenientVerdicts = append(lenientVerdicts, dec)
+			verdict = dec
+		}
+		switch verdict {
 		case 2:
 			return true, false, nil, true, false
 		case 1:
@@ -1157,7 +1172,11 @@ func checkProperty(g genBody, c reqCase, res reqResult, orc *vh.Oracle, rep *vh.
 	if known {
 		accepted, stored, invalid, open = expect(g, c.B)
 	} else {
+		lenientLines, lenientVerdicts = nil, nil
 		known, accepted, stored, invalid, open = expectFromBody(g.body, c.B)
+		for i, l := range lenientLines {
+			reportLenient(rep, l, lenientVerdicts[i])
+		}
 	}
 	if open && accepted {
 		// verdict left to the code: follow it, then hold it to the property
